@@ -56,12 +56,36 @@ func drawName(t *rt.Tape) string {
 	return string(b)
 }
 
+// mustType builds the type info for a type name directly (without the
+// library's parser, so that the expectation is independent of it): intN,
+// uintN, boolN, stringN, structN, [k]uintN.
 func mustType(s string) types.Info {
-	ti, err := types.Parse(s)
-	if err != nil {
-		panic(fmt.Sprintf("harness: types.Parse(%q): %v", s, err))
+	if strings.HasPrefix(s, "[") {
+		i := strings.IndexByte(s, ']')
+		n, err := strconv.Atoi(s[1:i])
+		if err != nil {
+			panic("harness: bad type " + s)
+		}
+		el := mustType(s[i+1:])
+		return types.Info{Type: types.TArray, IsConcrete: true, Bits: types.Size(n) * el.Bits, ElementType: &el, ArraySize: types.Size(n)}
 	}
-	return ti
+	for name, ty := range map[string]types.Type{"uint": types.TUint, "int": types.TInt, "bool": types.TBool, "string": types.TString, "struct": types.TStruct} {
+		if strings.HasPrefix(s, name) {
+			if n, err := strconv.Atoi(s[len(name):]); err == nil {
+				return types.Info{Type: ty, IsConcrete: true, Bits: types.Size(n)}
+			}
+		}
+	}
+	panic("harness: bad type " + s)
+}
+
+// typeDesc renders a type structurally (not through Info.String).
+func typeDesc(t types.Info) string {
+	s := fmt.Sprintf("T%d/bits=%d/concrete=%v", t.Type, t.Bits, t.Concrete())
+	if t.ElementType != nil {
+		s += fmt.Sprintf("/array=%d of (%s)", t.ArraySize, typeDesc(*t.ElementType))
+	}
+	return s
 }
 
 // drawLeaf draws a scalar or array argument with exactly bits bits if bits>0.
@@ -147,7 +171,7 @@ func sigString(io circuit.IO, withNames bool) string {
 	var sb strings.Builder
 	for _, a := range io {
 		if withNames {
-			fmt.Fprintf(&sb, "%q:%s/%d", a.Name, a.Type.String(), a.Type.Bits)
+			fmt.Fprintf(&sb, "%q:%s", a.Name, typeDesc(a.Type))
 		} else {
 			fmt.Fprintf(&sb, "/%d", a.Type.Bits)
 		}
